@@ -1,13 +1,18 @@
-(* Extract_c09.v — extraction of the binary64 instance of the signed-search model (group "c09").
+(* Extract_c09.v — extraction of the binary64 instances of the signed-search model and of the tree-based variants
+   (SignedFloatModel.v, TreesFloatModel.v; group "c09").
    ExtrOcamlBasic + ExtrOCamlFloats (the ONE extra extraction library of this property: it maps Coq's primitive
    floats PrimFloat.float / add / ltb / ... to the module Float64 of Coq's own kernel, kernel/float64.ml, where
    add x y = x +. y and lt x y = x < y on OCaml's unboxed IEEE-754 doubles; the executable must be linked with
    the ocamlfind package coq-core.kernel).  No directives of our own. *)
 From Coq Require Extraction ExtrOcamlBasic ExtrOCamlFloats.
 From Coq Require Import ZArith.
-From Parmcb Require Import SignedFloatModel.
+From Parmcb Require Import SignedFloatModel TreesFloatModel.
 Extraction Language OCaml.
 Set Extraction Optimize.
 Extraction "model.ml"
   Z.add Z.mul Z.opp Z.div_eucl Z.of_nat Z.to_nat Z.compare Z.eqb
-  mcb_sva_signed_F mcb_sva_signed_F_w bidir_F.
+  mcb_sva_signed_F mcb_sva_signed_F_w bidir_F
+  sp_node_of sp_first opposite
+  tf_sptree tf_sptrees_all tf_horton_cycles tf_fvs_cycles tf_iso_cycles tf_iso_cycles_strict tf_tl_answers
+  tf_mcb_sva_trees_first tf_mcb_sva_trees_replay tf_mcb_sva_trees_accept tf_mcb_sva_trees_first_dflt tf_mcb_sva_trees_accept_dflt
+  tf_mcb_sva_trees_go tf_lookup_direct tf_mcb_sva_trees_explain.
